@@ -315,10 +315,77 @@ func c08CaseOf(p *gen.Program, src string) c08Case {
 	return c
 }
 
+// c08Spanning: here-documents that are pending while the rest of the line
+// holds constructs with newlines in them that are no NEWLINE tokens (the
+// bodies follow the line on which the last of these constructs ends), and
+// many here-documents at one newline.
+func c08Spanning() []c08Case {
+	var out []c08Case
+	hd := func(op, delim, body string) c08HD {
+		d := delim
+		if op == "<<-" {
+			d = "\t" + delim
+		}
+		return c08HD{Op: op, WordSkel: skel.Word([]string{skel.Lit(delim)}), BodySkel: []string{skel.Lit(body)}, Body: body, Delim: d}
+	}
+	spans := []string{"(( 1 +\n2 ))", "(( x\n))", "b \"a\nb\"", "b 'a\nb'", "b $(a\nb)", "b `a\nb`", "b $((1 +\n2))", "b ${x:-a\nb}", "b \\\nc", "b \"$(a\nb)\"", "(( (1) +\n\n2 ))", "b $(a <<F\nf\nF\n)"}
+	for _, sp := range spans {
+		for _, sep := range []string{"; ", " | ", " && ", " & "} {
+			for _, op := range []string{"<<", "<<-"} {
+				// one and two pending here-documents
+				src := "cat " + op + "A" + sep + sp + "\n" + "body a\n" + hd(op, "A", "").Delim + "\nnext\n"
+				c := c08Case{Src: src, HDs: []c08HD{hd(op, "A", "body a\n")}}
+				src2 := "cat " + op + "A <<B" + sep + sp + "\n" + "body a\n" + hd(op, "A", "").Delim + "\nbody b\nB\n"
+				c2 := c08Case{Src: src2, HDs: []c08HD{hd(op, "A", "body a\n"), hd("<<", "B", "body b\n")}}
+				if strings.Contains(sp, "<<F") {
+					// (the here-document inside the substitution comes first in the tree)
+					inner := hd("<<", "F", "f\n")
+					c.HDs = append(c.HDs, inner)
+					c2.HDs = append(c2.HDs, inner)
+				}
+				out = append(out, c, c2)
+			}
+		}
+	}
+	// in a group, where the line that follows is part of the same command
+	for _, sp := range spans[:8] {
+		src := "{ cat <<A; " + sp + "\nbody a\nA\ny\n}\n"
+		out = append(out, c08Case{Src: src, HDs: []c08HD{hd("<<", "A", "body a\n")}})
+	}
+	// many at one newline
+	for _, nd := range []int{5, 16, 17, 18, 40} {
+		var b strings.Builder
+		var hds []c08HD
+		b.WriteString("cat")
+		for i := 0; i < nd; i++ {
+			op := []string{"<<", "<<-"}[i%2]
+			fmt.Fprintf(&b, " %s%sE%d", []string{"", "4"}[i%2*(i%3/2)], op, i)
+			hds = append(hds, hd(op, fmt.Sprintf("E%d", i), fmt.Sprintf("body %d\n", i)))
+		}
+		b.WriteString("\n")
+		for i, h := range hds {
+			fmt.Fprintf(&b, "body %d\n%s\n", i, h.Delim)
+		}
+		out = append(out, c08Case{Src: b.String(), HDs: hds})
+	}
+	return out
+}
+
 func TestC08(t *testing.T) {
 	st := newStats("C08")
 	defer st.Write()
-	_, nsh := shard()
+	shd, nsh := shard()
+	for i, c := range c08Spanning() {
+		if i%nsh != shd {
+			continue
+		}
+		if err := checkC08(c); err != nil {
+			fail(t, "C08", "heredoc", c, "%v", err)
+		}
+		st.EvalN(1, 1)
+		st.Class("pending_across_constructs_that_span_lines")
+	}
+	st.Note("here-documents (<< and <<-, one and two) pending while the rest of the line holds one of 12 constructs with newlines that are no NEWLINE tokens (arithmetic commands and expansions, quotes, substitutions, a line continuation, a substitution with its own here-document), behind ; | && &, at top level and in a group; 5 to 40 here-documents at one newline")
 	n := 150000
 	if thorough() {
 		n = 3000000
